@@ -211,6 +211,19 @@ def r3(ck, F):
         else:
             ck.bad("C07.R3", "Context::%s filters its result with self.filter" % m, where(b.raw["sp"]),
                    "a span can be returned without passing try_with_filter(self.filter): the layer would see spans its filter rejected", fn=b.path)
+    # when the top of the stack is rejected by the filter, the "current span" for this layer is the newest *entered* span
+    # its filter accepts: the fallback must walk the thread's entered-span stack, not the rejected span's parent links
+    lcf = F.body(P + "lookup_current_filtered")
+    lc = F.body(P + "lookup_current")
+    if lcf is not None and lc is not None:
+        walks = [t for bb, t in lcf.calls() if t["callee"].get("path") == "tracing_subscriber::registry::sharded::Registry::span_stack"]
+        it = [t for bb, t in lcf.calls() if t["callee"].get("path") == "tracing_subscriber::registry::stack::SpanStack::iter"]
+        used = any(t["callee"].get("path") == P + "lookup_current_filtered" for bb, t in lc.calls())
+        if walks and it and used:
+            ck.ok("C07.R3", "lookup_current falls back to the newest accepted span of the thread's entered-span stack", fn=lcf.path)
+        else:
+            ck.bad("C07.R3", "lookup_current falls back to the newest accepted span of the thread's entered-span stack", where(lc.raw["sp"]),
+                   "the fallback does not iterate Registry::span_stack(): what a layer sees as current would depend on the parent links of a span its filter rejected", fn=lc.path)
     for m, allowed in via.items():
         b = F.body(P + m)
         if not ck.anchor("C07.R3", "Context::" + m, b):
